@@ -402,12 +402,18 @@ func numericLaws() []L {
 		}},
 		{Name: "greatest-least", Weight: 3, Gen: func(rnd *rand.Rand) *Inst {
 			n := 2 + rnd.Intn(4)
-			kind := rnd.Intn(3)
+			kind := rnd.Intn(4)
 			var lits []string
 			var nums []*big.Rat
 			var strs []string
+			var isInt []bool
 			for i := 0; i < n; i++ {
-				switch kind {
+				k := kind
+				if kind == 3 { // mixed integers and exact decimals
+					k = rnd.Intn(2)
+				}
+				isInt = append(isInt, k == 0)
+				switch k {
 				case 0:
 					x := rnd.Int63n(2001) - 1000
 					if rnd.Intn(5) == 0 {
@@ -417,6 +423,9 @@ func numericLaws() []L {
 					nums = append(nums, new(big.Rat).SetInt64(x))
 				case 1:
 					d := genDec(rnd)
+					if !strings.Contains(d.text, ".") {
+						d = mkDec(d.text+".0", d.class)
+					}
 					lits = append(lits, d.lit())
 					nums = append(nums, d.val)
 				default:
@@ -425,7 +434,7 @@ func numericLaws() []L {
 					strs = append(strs, s)
 				}
 			}
-			cls := []string{"int", "decimal", "string"}[kind]
+			cls := []string{"int", "decimal", "string", "mixed"}[kind]
 			return g5lib.NewInst(fmt.Sprintf("%s/n=%d", cls, n), lits, func(v []V) string {
 				if kind == 2 {
 					mx, mn := strs[0], strs[0]
@@ -471,8 +480,31 @@ func numericLaws() []L {
 				if kind == 0 && lossy {
 					return "integer-argument-beyond-2^53-compared-as-double"
 				}
-				if kind == 1 && lossy && ok1 && ok2 && sameAsDouble(g, mx) && sameAsDouble(l, mn) {
+				if (kind == 1 || kind == 3) && lossy && ok1 && ok2 && sameAsDouble(g, mx) && sameAsDouble(l, mn) {
 					return "decimal-result-rounded-to-double"
+				}
+				if kind == 3 && ok1 && ok2 {
+					// known finding: an integer argument is compared with the running selection truncated to int64
+					emu := func(less bool) float64 {
+						sel := 0.0
+						for i, x := range nums {
+							f, _ := x.Float64()
+							if isInt[i] {
+								iv, t := x.Num().Int64(), int64(sel)
+								if i == 0 || (less && iv < t) || (!less && iv > t) {
+									sel = float64(iv)
+								}
+							} else if i == 0 || (less && f < sel) || (!less && f > sel) {
+								sel = f
+							}
+						}
+						return sel
+					}
+					gf, _ := g.Float64()
+					lf, _ := l.Float64()
+					if gf == emu(false) && lf == emu(true) {
+						return "integer-argument-compared-with-truncated-running-value"
+					}
 				}
 				if !ok1 || g.Cmp(mx) != 0 {
 					return "greatest-" + cls
